@@ -1415,6 +1415,7 @@ extern "C" int nsim_sys_pthread_mutex_lock (pthread_mutex_t *m) {
 	if (!g.in_run || !g.cur) return ::pthread_mutex_lock (m);
 	PM *p = (PM *) m;
 	Fibre *f = g.cur;
+	if (p->magic != 0x504d) { p->magic = 0x504d; p->owner = -1; }    /* statically initialised (PTHREAD_MUTEX_INITIALIZER, std::mutex's constructor) */
 	sched_point ();
 	while (p->owner != -1) {
 		f->waddr = (uintptr_t) m;
@@ -1498,6 +1499,16 @@ extern "C" int nsim_sys_pthread_cond_signal (pthread_cond_t *c) {
 	sched_point ();
 	return 0;
 }
+
+// std::condition_variable's out-of-line members (configuration cpp-mutexsem: platform/c++11/src/nsync_semaphore_mutex.cc).  The object
+// begins with its pthread_cond_t and std::mutex with its pthread_mutex_t (libstdc++'s layout, asserted below), so these forward to the
+// pthread model; std::mutex::lock/unlock and condition_variable::wait_until are inline in the headers and arrive as pthread_* calls.
+struct CppUniqueLock { void *device; bool owns; };      // std::unique_lock<std::mutex>
+extern "C" void nsim_sys_cpp_cv_ctor (void *cv) { memset (cv, 0, sizeof (pthread_cond_t)); nsim_sys_pthread_cond_init ((pthread_cond_t *) cv, NULL); }
+extern "C" void nsim_sys_cpp_cv_dtor (void *cv) { (void) cv; }
+extern "C" void nsim_sys_cpp_cv_wait (void *cv, CppUniqueLock *lk) { nsim_sys_pthread_cond_timedwait ((pthread_cond_t *) cv, (pthread_mutex_t *) lk->device, NULL); }
+extern "C" void nsim_sys_cpp_cv_notify_all (void *cv) { nsim_sys_pthread_cond_broadcast ((pthread_cond_t *) cv); }
+extern "C" void nsim_sys_cpp_cv_notify_one (void *cv) { nsim_sys_pthread_cond_signal ((pthread_cond_t *) cv); }
 
 // POSIX unnamed semaphores (platform/posix/src/nsync_semaphore_sem_t.c): a counting semaphore whose count lives in the
 // first word after a magic; sem_post / a successful wait synchronise memory (release / acquire), as POSIX requires.
